@@ -163,7 +163,14 @@ def replace_ref(text, oldvalue, newvalue="n/a"):
     # p1/p2 contain the parentheses directly surrounding the tag
     # All four groups can have spaces.
     pattern = r'(?P<c1>[\s,]*)(?P<p1>[(\s]*)' + oldvalue + r'(?P<p2>[\s)]*)(?P<c2>[\s,]*)'
-    return re.sub(pattern, _remover, text)
+    # One reference at a time: a single pass cannot remove two adjacent references, as the first match
+    # consumes the delimiters that the second one needs.
+    while oldvalue in text:
+        new_text = re.sub(pattern, _remover, text, count=1)
+        if new_text == text:
+            break
+        text = new_text
+    return text
 
 
 def _handle_curly_braces_refs(df, refs, column_names):
